@@ -589,7 +589,7 @@ def run_get_cells(S, search_type, which, exact, limit_value, with_data, nrows=2,
             return ex.ctx.ref_to(OpaqueV("tip_key_hash_bytes", "[u8]"))
         if (lo, hi) == (1, 9):
             return ex.ctx.ref_to(OpaqueV("tip_key_number_bytes", "[u8]"))
-        raise Stop(f"unexpected slice of the header key [{lo}..{hi}]")
+        return ex.ctx.ref_to(OpaqueV(f"tip_key_other_bytes_{lo}_{hi}", "[u8]"))       # not the documented layout: the answer's shape check fails
     ctx.env = list(E.LOGGING_OFF) + [
         (E.rx(r"JsonUint::<u32>::value$"), lambda ex, c_, a, d: IntV(limit_value, "u32")),
         (E.rx(r"Error::invalid_params::<"), lambda ex, c_, a, d: OpaqueV("invalid_params", d)),
@@ -605,7 +605,7 @@ def run_get_cells(S, search_type, which, exact, limit_value, with_data, nrows=2,
         (E.rx(r" as Iterator>::sum::<u64>$"), it_sum),
         (E.rx(r"Capacity::as_u64$"), lambda ex, c_, a, d: IntV(cap_t(ex, a[0]), "u64")),
         (E.rx(r"<\[u8\] as Index<(std::ops::)?Range<usize>>>::index$"), tip_slice),
-        (E.rx(r"core::num::<impl u64>::from_be_bytes$"), lambda ex, c_, a, d: ctx.int("tip_number", "u64")),
+        (E.rx(r"core::num::<impl u64>::from_be_bytes$"), lambda ex, c_, a, d: ctx.int("tip_number" if "tip_key_number_bytes" in str(getattr(deref(ex, a[0]) if isinstance(a[0], RefV) else a[0], "name", "")) else "number_decoded_from_other_bytes", "u64")),
         (E.rx(r"<(ckb_types::packed::)?Byte32 as Into<H256>>::into$"), passthru),
         (E.rx(r"<Box<\[u8\]> as AsRef<\[u8\]>>::as_ref$"), lambda ex, c_, a, d: a[0]),
         (E.rx(r"<Vec<u8> as AsRef<\[u8\]>>::as_ref$|<Box<\[u8\]> as Deref>::deref$|<Vec<u8> as Deref>::deref$|Vec::<u8>::as_slice$|<DBVector as Deref>::deref$|<(ckb_types::bytes::)?Bytes as Deref>::deref$"), lambda ex, c_, a, d: a[0]),
@@ -614,7 +614,7 @@ def run_get_cells(S, search_type, which, exact, limit_value, with_data, nrows=2,
         (E.rx(r"<\[u8\] as Index<(std::ops::)?RangeFrom<usize>>>::index$"), index_from),
         (E.rx(r"<&\[u8\] as TryInto<\[u8; \d\]>>::try_into$"), lambda ex, c_, a, d: mk_result(True, OpaqueV(getattr(deref(ex, a[0]), "name", "?"), "[u8; N]"), OpaqueV("tryerr", "TryFromSliceError"), d)),
         (E.rx(r"core::num::<impl u32>::from_be_bytes$"), from_be),
-        (E.rx(r"Byte32 as (ckb_types::prelude::)?Entity>::from_slice$"), lambda ex, c_, a, d: mk_result(True, OpaqueV("tip_hash", "Byte32") if "tip_key_hash_bytes" in str(getattr(deref(ex, a[0]) if isinstance(a[0], RefV) else a[0], "name", "")) else OpaqueV("row%d_tx_hash" % rowno(ex, a[0]), "Byte32"), OpaqueV("verr", "VerificationError"), d)),
+        (E.rx(r"Byte32 as (ckb_types::prelude::)?Entity>::from_slice$"), lambda ex, c_, a, d: mk_result(True, OpaqueV("tip_hash", "Byte32") if "tip_key_hash_bytes" in str(getattr(deref(ex, a[0]) if isinstance(a[0], RefV) else a[0], "name", "")) else (OpaqueV("hash_decoded_from_other_bytes", "Byte32") if "tip_key" in str(getattr(deref(ex, a[0]) if isinstance(a[0], RefV) else a[0], "name", "")) else OpaqueV("row%d_tx_hash" % rowno(ex, a[0]), "Byte32")), OpaqueV("verr", "VerificationError"), d)),
         (E.rx(r"<impl (ckb_types::packed::)?OutPoint>::new$"), op_new),
         (E.rx(r"Key::<'_>::into_vec$"), into_vec),
         (E.rx(r"Snapshot<'_> as .*Get<.*>>::get::<"), get),
